@@ -284,4 +284,4 @@ MANIFEST = {
     'design_ref': 'DESIGN.md 3/C17',
 }
 MANIFEST['note'] += (' Also decided here (necessary conditions shared between properties or added after the independent '
-                     'change rounds, DESIGN.md 8.7): kernel teardown (from C10/C14), parse errors leave process_message, distinct IkeSa.State values.')
+                     'change rounds, DESIGN.md 8.7): kernel teardown (from C10/C14), parse errors leave process_message, distinct IkeSa.State values. Rounds 7-8: one clock for all timer readings; registration of a rekey successor (from C16).')
